@@ -117,6 +117,18 @@ def build():
             ("BeginBatchDelete", True, False, True), ("BeginBatchAdd", False, True, False), ("Finished", True, True, False)]
     if commits != want:
         raise GenError("ZoneUpdater::apply arms changed: %r" % (commits,))
+    bd = one(r"ZoneUpdate::BeginBatchDelete\((\w+)\)\s*=>\s*\{(.*?)return\s+Ok\(diff\);", ap, "BeginBatchDelete arm")
+    if re.search(r"self\.check_soa_serial\(&%s\)\.await\?;" % re.escape(bd.group(1)), bd.group(2)):
+        if not re.search(r"self\.check_soa_serial\(&\w+\)\.await\?;.*self\.write\.commit\(\)", bd.group(2), re.S):
+            raise GenError("BeginBatchDelete: the SOA check no longer precedes the commit")
+        cs = fn_body(up, "check_soa_serial", after="impl<N> ZoneUpdater<N>")
+        one(r"let\s+zone_soa\s*=\s*self\.write\.root\(\)\.get_rrset\(Rtype::SOA\)\.await\?;", cs, "check_soa_serial reads the working SOA")
+        one(r"if\s+zone_serial\s*!=\s*Some\(soa\.serial\(\)\)\s*\{\s*return\s+Err\(Error::SoaMismatch\);\s*\}", cs, "check_soa_serial comparison")
+        defs.append(("updater_checks_batch_soa", "bool", "true"))
+    else:
+        if "check_soa_serial" in up or not bd.group(1).startswith("_"):
+            raise GenError("BeginBatchDelete: SOA argument is used in an unrecognised way")
+        defs.append(("updater_checks_batch_soa", "bool", "false"))
     defs.append(("commit_arms", "list N", "[4%N; 6%N]"))
     defs.append(("update_soa_arms", "list N", "[5%N; 6%N]"))
     # zonetree/in_memory/write.rs: rollback arming and the version the diff is taken against
@@ -143,6 +155,32 @@ def build():
     if "diff" in ra:
         raise GenError("WriteNode::remove_all now touches the diff: update the model (known class diff_misses_delete_all)")
     defs.append(("remove_all_bypasses_diff", "bool", "true"))
+    # sender side: record order and the one-record-per-message mode
+    sv = strip_comments(read("src/net/server/middleware/xfr/service.rs"))
+    one(r"xfr_data\.compatibility_mode\(\)\s*&&\s*q\.qtype\(\)\s*==\s*Rtype::AXFR\s*,", sv, "compatibility mode only for AXFR questions")
+    one(r"Rtype::AXFR\s*\|\s*Rtype::IXFR\s+if\s+xfr_data\.diffs\(\)\.is_empty\(\)\s*=>", sv, "fallback arm: no diffs")
+    one(r"if\s+query_serial\s*>=\s*soa\.serial\(\)\s*\{", sv, "single SOA reply when the client is up to date")
+    ax = fn_body(sv, "respond_to_axfr_query")
+    one(r"batcher_tx\s*\.send\(\(qname\.clone\(\),\s*zone_soa_rrset\.clone\(\)\)\)", ax, "AXFR: leading SOA")
+    defs.append(("sender_compat_axfr_only", "bool", "true"))
+    rs = strip_comments(read("src/net/server/middleware/xfr/responder.rs"))
+    m = one(r"let\s+hard_rr_limit\s*=\s*match\s+self\.compatibility_mode\s*\{\s*true\s*=>\s*Some\((\d+)\)\s*,\s*false\s*=>\s*None\s*,\s*\}", rs, "compatibility mode record limit")
+    defs.append(("compat_rr_limit", "N", "%d%%N" % int(m.group(1))))
+    one(r"if\s+last_rr_rtype\s*!=\s*Some\(Rtype::SOA\)", rs, "responder: last record must be the SOA")
+    af = strip_comments(read("src/net/server/middleware/xfr/axfr.rs"))
+    run = fn_body(af, "run", after="impl ZoneFunneler")
+    one(r"if\s+rrset\.rtype\(\)\s*!=\s*Rtype::SOA\s*\{", run, "AXFR walk skips the SOA")
+    if len(re.findall(r"send\(\(self\.qname,\s*self\.zone_soa_rrset\)\)", run)) != 2:
+        raise GenError("AXFR: trailing SOA send sites changed")
+    xf = strip_comments(read("src/net/server/middleware/xfr/ixfr.rs"))
+    run = fn_body(xf, "run", after="impl<Diff> DiffFunneler<Diff>")
+    one(r"^\s*if\s+let\s+Err\(err\)\s*=\s*self\s*\.batcher_tx\s*\.send\(\(self\.qname\.clone\(\),\s*self\.zone_soa_rrset\.clone\(\)\)\)", run, "IXFR: leading SOA")
+    one(r"for\s+diff\s+in\s+self\.diffs\s*\{\s*let\s+removed_soa\s*=\s*diff\.get_removed\(qname\.clone\(\),\s*Rtype::SOA\)\.await\.unwrap\(\);\s*Self::send_diff_section\(\s*&qname,\s*&self\.batcher_tx,\s*removed_soa,\s*diff\.removed\(\),?\s*\)\s*\.await\?;\s*let\s+added_soa\s*=\s*diff\.get_added\(qname\.clone\(\),\s*Rtype::SOA\)\.await\.unwrap\(\);\s*Self::send_diff_section\(\s*&qname,\s*&self\.batcher_tx,\s*added_soa,\s*diff\.added\(\),?\s*\)\s*\.await\?;\s*\}", run, "IXFR: removed section before added section")
+    one(r"\.send\(\(qname\.clone\(\),\s*self\.zone_soa_rrset\)\)", run, "IXFR: trailing SOA")
+    sd = fn_body(xf, "send_diff_section", after="impl<Diff> DiffFunneler<Diff>")
+    one(r"^\s*if\s+let\s+Err\(err\)\s*=\s*batcher_tx\.send\(\(qname\.clone\(\),\s*soa\.clone\(\)\)\)\.await", sd, "diff section starts with its SOA")
+    one(r"if\s+\*rtype\s*!=\s*Rtype::SOA\s*\{", sd, "diff section skips the SOA entry")
+    defs.append(("sender_order_ok", "bool", "true"))
     return defs
 
 if __name__ == "__main__":
